@@ -227,6 +227,10 @@ type Raft struct {
 	// The timestamp representing the time of the last contact by the leader.
 	lastContact time.Time
 
+	// Indicates whether this node has been stopped since its state was last
+	// restored from non-volatile storage.
+	stopped bool
+
 	// Indicates whether a replicated operation is being applied to the state machine.
 	// The lock is not held while the state machine applies an operation.
 	applying bool
@@ -480,10 +484,13 @@ func (r *Raft) start(restore bool) error {
 		return nil
 	}
 
-	if restore {
+	// The log is closed when the node is stopped. The state of the node must be restored
+	// from non-volatile storage if it is started again, whether Restart was called or not.
+	if restore || r.stopped {
 		if err := r.restore(); err != nil {
 			return fmt.Errorf("could not restore state: %w", err)
 		}
+		r.stopped = false
 	}
 
 	if r.configuration == nil {
@@ -558,6 +565,10 @@ func (r *Raft) Stop() {
 
 	// Close or discard of any snapshot files.
 	r.resetSnapshotFiles()
+
+	r.mu.Lock()
+	r.stopped = true
+	r.mu.Unlock()
 
 	r.logger.Info("node stopped")
 }
